@@ -210,7 +210,7 @@ def run(run: core.Run):
     grid = GRID[:5] if quick else GRID
     ax = subsets(3, grid)
     run.bounds = {"grid": grid, "tolerances": TOLS, "methods": METHODS, "axis_max_points": 3,
-                  "datasets": "all ordered pairs" + ("" if quick else " + all ordered triples of axes with <= 2 points")}  # fmt: skip
+                  "datasets": "all ordered pairs of axes with <= 3 points + all ordered triples of axes with <= 2 points"}  # fmt: skip
     cases = []
     for a, b in itertools.product(ax, ax):
         for tol in TOLS:
@@ -222,12 +222,12 @@ def run(run: core.Run):
         for tol in (0.0, 0.5, 1.0):
             for w in ("first", "last", "all"):
                 cases.append({"axes": [a, b], "tol": tol, "method": "nearest", "weights": w, "seed": run.seed})
-    if not quick:
-        ax2 = subsets(2)
-        for a, b, c in itertools.product(ax2, ax2, ax2):
-            for tol in TOLS:
-                for m in METHODS:
-                    cases.append({"axes": [a, b, c], "tol": tol, "method": m, "weights": "none", "seed": run.seed})
+    # three datasets: all ordered triples of axes with <= 2 points
+    ax2 = subsets(2, grid)
+    for a, b, c in itertools.product(ax2, ax2, ax2):
+        for tol in (0.5, 1.0) if quick else TOLS:
+            for m in METHODS:
+                cases.append({"axes": [a, b, c], "tol": tol, "method": m, "weights": "none", "seed": run.seed})
     run.map("provider", cases, chunksize=64)
     # end to end
     axe = subsets(2, grid) if quick else subsets(3)
